@@ -64,6 +64,16 @@ def extra(sp, rng):
     yield 'quadratic-perturb(Huber)', lambda: S.FunctionalQuadraticPerturb(S.Huber(sp, 0.5), quadratic_coeff=0.3), ('c1',), \
         lambda x: S.Huber(sp, 0.5)(x) + 0.3 * x.inner(x)
     yield 'Huber', lambda: S.Huber(sp, 0.5), ('c1',), None
+    # argument / value scaling by exactly zero: (f * 0)(x) = f(0 x) = f(0), (0 * f)(x) = 0
+    ft = f.translated(v) + 0.75
+    yield 'right-scaled(zero)', lambda: ft * 0.0, ('smooth',), lambda x: ft(0.0 * x)
+    yield 'left-scaled(zero)', lambda: 0.0 * ft, ('smooth',), lambda x: 0.0
+    if not util.is_pspace(sp) and sp.ndim == 1 and 2 <= sp.size <= 10 and util.weighting_tag(sp) == 'none' and type(sp).__name__ == 'NumpyTensorSpace':
+        for c in (1.0, 2.5, 100.0):
+            def rosen(x, c=c):
+                a = np.asarray(x)
+                return float(np.sum(c * (a[1:] - a[:-1] ** 2) ** 2 + (1 - a[:-1]) ** 2))
+            yield 'RosenbrockFunctional(scale=%g)' % c, lambda c=c: S.RosenbrockFunctional(sp, scale=c), ('smooth', 'nolip'), rosen
     yield 'BregmanDistance', lambda: S.BregmanDistance(f, v, f.gradient(v)), ('smooth',), lambda x: f(x) - f(v) - f.gradient(v).inner(x - v)
     yield 'MoreauEnvelope(L1Norm)', lambda: S.MoreauEnvelope(S.L1Norm(sp), 0.7), ('c1', 'novaluecall'), None
     yield 'MoreauEnvelope(L2NormSquared)', lambda: S.MoreauEnvelope(f, 0.7), ('smooth', 'novaluecall'), None
@@ -165,6 +175,9 @@ def check(ctx, fname, sname, sp, f, tags, rng, ref=None):
                 why = fd.verdict(errs)
             if why and not fd.quotient_sequence_converged(sp.field):
                 ctx.skip('difference quotients of the values do not converge in the step range')
+                why = None
+            if why and not kinked and not fd.resolvable(sp.field):
+                ctx.skip('difference quotients do not resolve the derivative to 1e-6 at any step')
                 why = None
             if why:
                 ctx.violation(comp, cfg, 'gradient-' + why, errors=['%.1e' % e for e in errs])
